@@ -58,7 +58,7 @@ def replay(ctx, data, monitors):
 
 
 TRUSTED = [
-    "harness/simkernel.py: the simulated kernel (lowest-free descriptor allocation, waitpid(-1, WNOHANG) semantics, ESRCH for reaped pids, a killed child is a zombie until waited) stands for Linux; supervisor.options.os/fcntl and the poller are replaced, everything else of supervisord runs unmodified",
+    "harness/simkernel.py: the simulated kernel (lowest-free descriptor allocation, waitpid(-1, WNOHANG) semantics, ESRCH for reaped pids, a killed child is a zombie until waited; arguments the real calls reject -- None or other non-integer descriptors, str data -- raise TypeError as in os/fcntl; os.read returns at most the requested size; a pipe holds 64K) stands for Linux; supervisor.options.os/fcntl and the poller are replaced, everything else of supervisord runs unmodified",
     "Model/Sup.lean follows runforever() one pass at a time cut at the poll point; child output/dispatchers, ticks and log reopening are outside this model",
     "one clock reading per pass (the virtual clock only advances inside poll())",
 ]
